@@ -160,10 +160,38 @@ func checkC03(c *Check) {
 			_ = pidParam
 			return nil
 		}
-		w.OnReturn = func(w *walker, st *wstate, ret *ssa.Return, rs []*absVal) { outs = append(outs, statusName(sc, rs[0])) }
+		// ... and the offender is not resumed on that path: no PtraceCont before the return, none deferred (the kill
+		// is sent by the caller's cleanup after this function returned; a resumed tracee executes the refused call)
+		resumed := ""
+		contOn := map[*wstate]string{}
+		isCont := func(ci ssa.CallInstruction) bool {
+			n, _ := calleeOf(ci)
+			return strings.HasSuffix(n, ".PtraceCont") || strings.HasSuffix(n, ".PtraceSyscall")
+		}
+		w.OnInstr = func(w *walker, st *wstate, in ssa.Instruction) {
+			if ci, ok := in.(ssa.CallInstruction); ok && isCont(ci) {
+				if _, isDefer := in.(*ssa.Defer); !isDefer {
+					if _, seen := st.vals[handleTrapCallOf(handle, handleTrap)]; seen {
+						contOn[st] = p.Pos(in.Pos())
+					}
+				}
+			}
+		}
+		w.OnReturn = func(w *walker, st *wstate, ret *ssa.Return, rs []*absVal) {
+			outs = append(outs, statusName(sc, rs[0]))
+			if pos, ok := contOn[st]; ok && resumed == "" {
+				resumed = pos
+			}
+			for _, d := range st.defers {
+				if isCont(d) && resumed == "" {
+					resumed = p.Pos(d.Pos()) + " (deferred)"
+				}
+			}
+		}
 		w.Run()
 		got := strings.Join(uniq(outs), "|")
 		c.Cond(got == "StatusDisallowedSyscall", "1/verdict-dispatch", "ptracer."+handle.Name()+":policy-error", p.Pos(handle.Pos()), "a policy error from the trap handler ends the run as Disallowed Syscall", "a policy error from the trap handler yields "+got)
+		c.Cond(resumed == "", "1/verdict-dispatch", "ptracer."+handle.Name()+":kill-does-not-resume", p.Pos(handle.Pos()), "the offender is not continued on the kill path", "on the kill path the tracee is continued at "+resumed+" before the kill reaches it: the refused system call can execute")
 	}
 	// who-may-call: register writes only through the skip helper, which only the Ban arm calls
 	if skip == nil {
@@ -664,3 +692,15 @@ func checkCombineJoin(c *Check) {
 }
 
 func constantString(s string) constant.Value { return constant.MakeString(s) }
+
+// handleTrapCallOf: the call of the trap handler inside the wait-status handler (nil if not found).
+func handleTrapCallOf(handle, handleTrap *ssa.Function) ssa.Value {
+	for _, ci := range callInstrsDeep(handle, 1) {
+		if _, callee := calleeOf(ci); callee == handleTrap {
+			if v, ok := ci.(ssa.Value); ok {
+				return v
+			}
+		}
+	}
+	return nil
+}
